@@ -541,6 +541,21 @@ Definition pop_reader (c : cfg) (stack : list reader) : res (option (reader * li
   end.
 
 (* ------------------------------------------------------------------------------------------- *)
+(** * XMLReader::doInitDecode, UCS-4 case: removal of a byte order mark from the freshly filled raw buffer:
+      "for (i = 0; i + 4 < fRawBytesAvail; i++) fRawByteBuf[i] = fRawByteBuf[i+4];  fRawBytesAvail -= 4;"
+      In window form: the four BOM bytes leave the window and the count shrinks by four (both happen, or neither) *)
+Definition is_ucs4_bom (l : list N) : bool :=
+  match l with
+  | b0 :: b1 :: b2 :: b3 :: _ =>
+    ((b0 =? 0) && (b1 =? 0) && (b2 =? 0xFE) && (b3 =? 0xFF)) || ((b0 =? 0xFF) && (b1 =? 0xFE) && (b2 =? 0) && (b3 =? 0))
+  | _ => false
+  end.
+Definition ucs4_bom_strip (r : reader) : reader :=
+  if is_ucs4_bom (rcur r)
+  then mkR (ccur r) (cidx r) (skipn 4 (rcur r)) (ridx r) (strm r) (noMore r) (line r) (col r)
+  else r.
+
+(* ------------------------------------------------------------------------------------------- *)
 (** * operation language of the correspondence and of T01_reader_inv *)
 Inductive op : Type :=
 | OGet | OPeek | OGetIfNot (ch : N) | OSkipChar (ch : N) | OSkipSpace | OSkipSpaces
